@@ -8,7 +8,7 @@ from vt import detsched as ds
 ID = 'C08'
 ENGINE = 'detsched'
 TECHNIQUE = 'runtime monitoring: stable-priority-queue conformance checker over the operation log of the fabric queues (recorded under the queue mutex) and publish call/return records, with delivery threads starved by a deterministic cooperative scheduler'
-RULE = ('bursts of 3-40 unique-id publications with priorities from a small set (many ties; the sets include the default None = 1000, 0, negative and very large numbers) from 1-3 publisher threads (in half of the runs a first part is published while the fabric is NOT running - before its first start or between a stop and the next start - so a backlog waits when the rest arrives) while the delivery '
+RULE = ('bursts of 3-40 unique-id publications with priorities from a small set (many ties; the sets include the default None = 1000, 0, negative, very large and FRACTIONAL numbers such as 2.25 / 2.5 / 2.75) from 1-3 publisher threads (in half of the runs a first part is published while the fabric is NOT running - before its first start or between a stop and the next start - so a backlog waits when the rest arrives) while the delivery '
         'threads are starved or interleaved by detsched (random schedules with low switch probability, PCT); the fabric queues are logging '
         'PriorityQueue subclasses whose _put/_get record under the queue\'s own mutex. For every get of item X: no item present in that '
         'queue at that moment may have a smaller priority number, or an equal priority and a publish call that RETURNED before X\'s publish '
@@ -16,7 +16,7 @@ RULE = ('bursts of 3-40 unique-id publications with priorities from a small set 
         'size, publishers, multiset of priorities, max simultaneous equal-priority backlog) tuples with >= 3 equal-priority items waiting')
 CASES = {'quick': 2000, 'thorough': 100000}
 BUDGET = {'quick': 150, 'thorough': 300}
-REQUIRE = {'bursts': 800, 'gets_checked': 10000, 'bursts_with_3_equal_waiting': 300, 'bursts_multi_publisher': 200, 'bursts_with_backlog_while_stopped': 300, 'bursts_with_zero_or_negative_priority': 200, 'boundary_pairs_checked': 100000}
+REQUIRE = {'bursts': 800, 'gets_checked': 10000, 'bursts_with_3_equal_waiting': 300, 'bursts_multi_publisher': 200, 'bursts_with_backlog_while_stopped': 300, 'bursts_with_zero_or_negative_priority': 200, 'boundary_pairs_checked': 100000, 'bursts_with_fractional_priorities': 200}
 ASSUME = ['the fabric is running; one delivery thread per kind']
 ANNOUNCE_CASES = True
 
@@ -24,7 +24,9 @@ ANNOUNCE_CASES = True
 def run_case(ctx, n):
   rng = ctx.rng('case', n)
   npub = rng.choice([1, 1, 2, 3])
-  prios = rng.choice([[1000], [1, 1000], [1, 2, 3], [5, 5, 5, 7], [None, 1000, 10], [0, 1, None], [0, 0, 2, 1000], [-3, 0, 4], [2 ** 40, 7, None]])
+  prios = rng.choice([[1000], [1, 1000], [1, 2, 3], [5, 5, 5, 7], [None, 1000, 10], [0, 1, None], [0, 0, 2, 1000], [-3, 0, 4], [2 ** 40, 7, None], [2.75, 2.5, 2.25, 2], [999.5, None, 1000.25, 1000.5], [0.1, 0.2, 0.15]])
+  if any(isinstance(p, float) for p in prios):
+    ctx.count('bursts_with_fractional_priorities')
   if any(p is not None and p <= 0 for p in prios):
     ctx.count('bursts_with_zero_or_negative_priority')
   total = rng.randint(3, 40)
